@@ -724,6 +724,13 @@ impl Check for C18 {
                 v.push(C18Case::Text { runs, long_line: Some((at, 1350)), final_newline: true, bed, utf8: false, crlf: false, tail: 0, extra_pad });
             }
         }
+        // a line of two-byte characters across the readers' 8 KiB buffer ends, at both parities:
+        // behind 0 .. 7 short lines (whose lengths differ), in the first and in the second run
+        for at in 0..8usize {
+            for runs in [vec![(0usize, 9usize), (1, 2), (2, 1)], vec![(0, at.max(1)), (1, 3), (2, 2)]] {
+                v.push(C18Case::Text { runs, long_line: Some((at, 1350)), final_newline: at % 2 == 0, bed: true, utf8: true, crlf: false, tail: 0, extra_pad: 2 * (at % 2) });
+            }
+        }
         // the empty file
         v.push(C18Case::Text { runs: vec![], long_line: None, final_newline: false, bed: true, utf8: false, crlf: false, tail: 0, extra_pad: 0 });
         // one larger file: many lines per run, so that probes land well inside runs
